@@ -17,6 +17,9 @@ pub struct Spec {
     pub strict: bool,
     pub full_trace: bool,
     pub tier_thorough: bool,
+    /// only generate the workload and report it (used to recover the workload
+    /// of a run that crashed or hung before it could report)
+    pub gen_only: bool,
 }
 
 pub trait Scenario: Sync {
@@ -81,6 +84,22 @@ fn set_cloexec(fd: i32) {
 
 /// Fork a child, run `scn.child(spec)` in it, and collect its report.
 pub fn run_one(scn: &dyn Scenario, spec: &Spec) -> RunResult {
+    let mut r = run_one_raw(scn, spec);
+    if r.raw.is_null() && !spec.gen_only && spec.overrides.is_null() {
+        // crashed or hung before reporting: recover the generated workload
+        let mut g = spec.clone();
+        g.gen_only = true;
+        let w = run_one_raw(scn, &g);
+        if !w.raw["workload"].is_null() {
+            r.raw = serde_json::json!({"workload": w.raw["workload"], "recovered": true});
+        }
+    } else if r.raw.is_null() && !spec.overrides.is_null() {
+        r.raw = serde_json::json!({"workload": spec.overrides, "recovered": true});
+    }
+    r
+}
+
+fn run_one_raw(scn: &dyn Scenario, spec: &Spec) -> RunResult {
     let start = Instant::now();
     let mut fds = [0i32; 2];
     unsafe {
@@ -446,6 +465,7 @@ pub fn run_batch(
                     strict: false,
                     full_trace: false,
                     tier_thorough: thorough,
+                    gen_only: false,
                 };
                 let r = run_one(scn, &spec);
                 agg.add(&r);
@@ -568,10 +588,11 @@ fn spec_from_report(seed: u64, index: u64, rep: &Value, thorough: bool) -> Spec 
         seed,
         index,
         overrides: rep["workload"].clone(),
-        replay: Some(report::unrle(&rep["decisions"])),
+        replay: if rep["decisions"].is_null() { None } else { Some(report::unrle(&rep["decisions"])) },
         strict: false,
         full_trace: false,
         tier_thorough: thorough,
+        gen_only: false,
     }
 }
 
@@ -594,6 +615,7 @@ pub fn minimise(scn: &dyn Scenario, first: &Value, thorough: bool, effort: usize
             strict: false,
             full_trace: false,
             tier_thorough: thorough,
+            gen_only: false,
         };
         best_res = run_one(scn, &best);
         return (best, best_res);
@@ -712,6 +734,7 @@ pub fn spec_from_replay_file(path: &str) -> (String, Spec, String) {
         strict: true,
         full_trace: false,
         tier_thorough: v["thorough"].as_bool().unwrap_or(false),
+        gen_only: false,
     };
     (
         v["scenario"].as_str().unwrap_or("").to_string(),
